@@ -36,26 +36,37 @@ TEXT = {
   'technique': 'differential execution with gas-limit sweep + regenerated table facts + Lean gas-rule lemmas',
  },
  'C18': {
-  'text': 'Lean: the debug callbacks emitted by EVM.Call stay balanced on every path including join-point aborts (openCount invariant), do not '
-          'depend on the Artela tracer, are unchanged by unbound join points; without Aspect events the fork call tracer never creates an Aspect '
-          'frame (its remaining code is upstream\'s); every inherited tracer declaration is identical to upstream (regenerated identity table). '
-          'Runs: full callback streams fork vs upstream on generated programs; call, flat-call, 4byte, prestate (plain/diff) tracers and the '
-          'struct logger of both sides on the same executions compared byte for byte; S balanced on call-tree programs with failing join points.',
-  'note': 'Partial: balance is proved for EVM.Call (the function join points can abort) and checked for all frame functions on runs; log '
-          'collection of the call tracer is compared with upstream but not modelled. Known finding D18 (opcode names).',
-  'technique': 'Lean invariant on the callback stream + regenerated identity facts + paired tracers on paired implementations',
+  'text': 'Lean: the debug callbacks emitted by the five frame functions are balanced against the open frames after EVERY event sequence - on '
+          'every path including refusals and join-point aborts - and all closed once every frame has returned (c18_run_balanced, '
+          'c18_all_closed); they do not depend on the Artela tracer and are unchanged by unbound join points (C01 lemmas); without Aspect events '
+          'the fork call tracer never creates an Aspect frame (its remaining code is upstream\'s); every inherited tracer declaration is '
+          'identical to upstream (regenerated identity table). Runs: full callback streams fork vs upstream on generated programs; call, '
+          'flat-call, 4byte, prestate (plain/diff) tracers and the struct logger of both sides on the same executions compared byte for byte, '
+          'also on structured call trees with logs at every level (S tracer-same-tree); S balanced on call-tree programs with failing join points.',
+  'note': 'Partial: equality of the callback stream and of the inherited tracers\' output with upstream rests on the identity table plus '
+          'differential runs (the inherited code is not modelled); log collection of the call tracer is compared with upstream but not '
+          'modelled. Known finding D18 (opcode names).',
+  'technique': 'Lean invariant on the callback stream over all event sequences + regenerated identity facts + paired tracers on paired implementations',
  },
  'C19': {
   'text': 'Lean 4 theorems on the call-tracer machine (callbacks as events, Go indexing partial): for EVERY event sequence, in either '
           'configuration, the nested tracer never panics (invariant: non-empty stack, valid ids, a frame with a running join point has an Aspect '
-          'frame); a returning call is filed under the Aspect frame running on its parent if any, else under the parent; an Aspect exit is '
-          'recorded on the Aspect frame entered last on the current call with its own gas used, output and error. Every run feeds streams '
+          'frame); in the default configuration an accounting invariant holds after every callback sequence (c19_accounting): each call frame is '
+          'either on the call stack or listed in exactly one calls list - of a call frame or of an Aspect frame, never both, never twice - and '
+          'each Aspect frame is listed under exactly one call frame, so that once all calls have returned every frame and every Aspect '
+          'execution appears exactly once (c19_every_frame_exactly_once); a returning call is filed under the Aspect frame running on its '
+          'parent if any, else under the parent; an Aspect exit is recorded on the Aspect frame entered last on the current call with its own '
+          'gas used, output and error. Flat tracer: flatFromNested/flatAspectNested are transcribed index for index (Model/FlatTracer.lean) and proved '
+          'equal to the pre-order flattening of the tree with children ordered pre-Aspects, calls, post-Aspects whenever on every frame the '
+          'pre-call Aspect frames precede the post-call ones (goFlat_eq_flat; the hypothesis is necessary - a two-Aspect witness with '
+          'colliding addresses is proved - and the driver evaluates it on every stream); hence one entry per node, pairwise distinct and '
+          'prefix-closed trace addresses, subtraces = number of emitted children (c19_flat_*). Every run feeds streams '
           'generated from the property\'s tree grammar (several Aspects per join point, calls from inside Aspects, all frame kinds, precompile '
           'targets) to the real callTracer and flatCallTracer (onlyTopCall, includePrecompiles) and compares GetResult() with the model, with the '
           'rendering of the generating tree (S ctrender) and with the flat invariants: subtraces = emitted children, addresses unique and '
           'prefix-closed (S ctflatinv).',
-  'note': 'Partial: exact rendering and the flat invariants are checked against the generating tree, not proved. Fixed defects D13a-c, D17.',
-  'technique': 'Lean no-panic invariant over all callback sequences + tree-grammar correspondence with independent rendering',
+  'note': 'Partial: the JSON rendering, parity error conversion and the precompile filtering of the flat tracer are modelled and compared (also against the generating tree: S ctrender, S ctflatinv, S ctflatown) but carry no theorem of their own; the exactly-once accounting is proved for the default configuration (onlyTopCall skips nested frames by design). Fixed defects D13a-c, D17.',
+  'technique': 'Lean no-panic and exactly-once accounting invariants over all callback sequences + tree-grammar correspondence with independent rendering',
  },
  'C04': {
   'text': 'Lean 4 theorem over the frame machine (a statement-by-statement model of EVM.Call/CallCode/DelegateCall/StaticCall/create run on an '
@@ -84,8 +95,10 @@ TEXT = {
  'C06': {
   'text': 'Lean 4 theorems on the frame model: the caller gets back tailGas(post.gas, final error) - exactly what the post join point left on '
           'success or revert, nothing otherwise; an out-of-gas join-point failure becomes the EVM\'s own out-of-gas error with no gas; any other '
-          'non-revert failure forfeits the gas; a failing pre join point is subject to the same rule; tailGas never exceeds its input, so no frame '
-          'returns more than it was given when join points and interpreter do not create gas. Tied by mock Aspects burning 0/1/777/5000/all gas and '
+          'non-revert failure forfeits the gas; a failing pre join point is subject to the same rule; the callee\'s interpreter starts '
+          'with exactly what the pre join point left (c06_callee_start_gas); for EVERY event sequence in which no join point, precompile or '
+          'interpreter run hands back more gas than it received, every invocation of every frame function returns at most the gas it was '
+          'supplied with (c06_no_frame_creates_gas, invariant by induction over events). Tied by mock Aspects burning 0/1/777/5000/all gas and '
           'failing in four ways at both join points; S gas checks callee start gas, returned gas and error against the join-point log.',
   'note': 'An Aspect revert produced by the real runtime is aspect-core\'s own error value, not the EVM sentinel, so the code treats it as a '
           'generic failure (gas forfeited); model and harness compare errors as Go does (identity). Fixed defect D1.',
@@ -93,7 +106,8 @@ TEXT = {
  },
  'C08': {
   'text': 'Lean 4 theorems: every Call/create invocation - refused or not - pushes exactly one node at the next index with the inputs as '
-          'made; no later tracer operation alters a node\'s inputs, index or parent (Stable, for every continuation); the exit writes exactly the '
+          'made, and after EVERY event sequence the number of recorded nodes equals the number of Call/create invocations made - '
+          'CallCode/DelegateCall/StaticCall, epilogues, effects and journal instructions add none (c08_one_node_per_attempt); no later tracer operation alters a node\'s inputs, index or parent (Stable, for every continuation); the exit writes exactly the '
           'triple handed back to the caller on the cursor node and on no other; the parent of a new node is the node of the innermost CALL/CREATE '
           'frame in progress (from the cursor invariant proved over all event sequences). Tied by call-tree programs that overwrite the argument '
           'area after calls; S node compares every node after the whole transaction with bytes captured at the moment of the call.',
@@ -102,34 +116,53 @@ TEXT = {
   'technique': 'Lean 4 invariant (cursor = innermost node frame) + immutability lemmas + post-transaction node comparison',
  },
  'C11': {
-  'text': 'Lean 4 theorems on the model of the key tree + flat index exactly as coded: a refused registration/change leaves the state equal; '
-          'a registration whose name, (slot,offset) and (slot,offset,type) are new is reachable through BOTH lookups at the same fresh node; an '
-          'accepted change modifies exactly the node the slot lookup returns with the append-unless-repeat law; child names are exactly those '
-          'registered. The full property is kept as c11_full and its NEGATION is proved (three-operation witnesses for each conflict class): '
-          'known finding D14. Every run replays random histories over a small alphabet through the exported API, compares every accessor with '
-          'the model, and probes each accepted registration (S both-see): non-conflicting ones must be seen by both lookups.',
-  'note': 'Partial: history-level agreement is proved one step at a time (fresh registration, change), not as a global invariant; the conflict '
-          'classes (same name/other key, shared slot+offset/other type, same key/other path, child of a conflicted parent) are reported as '
+  'text': 'Lean 4 theorems on the model of the key tree + flat index exactly as coded. For EVERY history in which no registration '
+          'conflicts with an earlier one (top-level and nested registrations under any registered parent, refused registrations, change '
+          'journals; conflict-freedom is an explicit predicate with a sound executable test) a global invariant holds '
+          '(c11_conflict_free_agree): every flat-index entry denotes a node carrying that (slot, offset, type) and reachable by a name '
+          'path from its account\'s root, every node reachable by a name path is its account\'s index entry for its own coordinates, '
+          'and no node belongs to two accounts - so lookup by path and lookup by slot reach the same record and return the same change set '
+          '(c11_by_path_then_by_slot, c11_by_slot_then_by_path, c11_same_changes). For every state: a refused registration/change leaves '
+          'the state equal; an accepted change modifies exactly the node the slot lookup returns with the append-unless-repeat law; child '
+          'names are exactly those registered. The full property is kept as c11_full and its NEGATION is proved (three-operation '
+          'witnesses for each conflict class): known finding D14. Every run replays random histories over a small alphabet through the '
+          'exported API, compares every accessor with the model, and probes each accepted registration (S both-see): non-conflicting ones '
+          'must be seen by both lookups.',
+  'note': 'Partial because the property is false as stated (D14): agreement is proved for all conflict-free histories; idempotent exact '
+          're-registration is covered by the one-step theorems and the correspondence, not by the global invariant; the conflict classes '
+          '(same name/other key, shared slot+offset/other type, same key/other path, child of a conflicted parent) are reported as '
           'KNOWN-FINDING D14, any other disagreement is a violation.',
-  'technique': 'Lean 4 one-step theorems + proved negation witnesses + op-sequence correspondence with per-registration probes',
+  'technique': 'Lean 4 global invariant over all conflict-free histories + proved negation witnesses + op-sequence correspondence with per-registration probes',
  },
  'C10': {
-  'text': 'Lean 4 theorems (tracer part): a change is filed under the call-tree cursor (innermost open node, 0 at rest) and the account '
-          'passed in; it modifies exactly one key node, leaving every other node, the flat index and the roots untouched; the list of a record '
-          'per call is the chronological sequence with immediate repeats collapsed (c10_list_is_collapsed_history), other calls\' lists '
-          'untouched, nothing removed. Tied by op-sequence correspondence on the exported tracer API (repeated and alternating values, calls '
-          'opened and closed in between) and by journal opcodes run in real frames.',
-  'note': 'Partial: which account the opcodes pass in DELEGATECALL/CALLCODE/CREATE frames and that the cursor is the innermost CALL/CREATE '
-          'frame are frame-layer facts, checked by correspondence where the frame layer is present.',
-  'technique': 'Lean 4 proof of the list law by induction over journaled values + op-sequence correspondence',
+  'text': 'Lean 4 theorems. Tracer: a change is filed under the call-tree cursor and the account passed in; it modifies exactly one key '
+          'node, leaving every other node, the flat index and the roots untouched; the list of a record per call is the chronological '
+          'sequence with immediate repeats collapsed (c10_list_is_collapsed_history), other calls\' lists untouched, nothing removed. Frame '
+          'machine, every event sequence: the frame opened by Call/StaticCall/create runs in the callee\'s / new contract\'s storage '
+          'context, CallCode/DelegateCall frames in the CALLER\'s, and a journal instruction passes exactly that address '
+          '(c10_*_frame_account, c10_journal_passes_frame_account); the entry is filed under the node of the innermost CALL/CREATE frame in '
+          'progress however many node-less frames sit on top (c10_filed_under_innermost_node_frame); no epilogue - also of a failing frame - '
+          'touches recorded entries (c13_halt_silent). Tied by op-sequence correspondence on the exported tracer API, journal opcodes in '
+          'real frames, call-tree programs with journal instructions in every frame kind, and S attributed (the list law checked on the '
+          'implementation alone around every accepted change).',
+  'note': 'Trusted: Lean kernel + standard axioms; tracer, journal and frame models validated by correspondence; that the opcodes pass '
+          'scope.Contract.Address() is what the frame model calls the storage address of the frame (compared on every frame-layer run).',
+  'technique': 'Lean 4 proofs: list law by induction over journaled values, account/index attribution over all event sequences of the frame machine + correspondence',
  },
  'C13': {
-  'text': 'Lean 4 theorems (tracer part): TransferWithRecord files before-from, before-to, after-from, after-to in that order under the '
-          'cursor index, each touching only the root record of that account with the append-unless-repeat law (so self-transfers and zero '
-          'values collapse as stated); roots stay roots. The correspondence performs real transfers on a real StateDB through the exported '
-          'TransferWithRecord, reads the true balances before and after independently, and compares the Balance() records with the model.',
-  'note': 'Partial: that Call/create perform exactly one TransferWithRecord per frame that reaches the transfer is a frame-layer fact.',
-  'technique': 'Lean 4 proof of order/index/list law + correspondence with independently observed balances',
+  'text': 'Lean 4 theorems. Tracer: TransferWithRecord files before-from, before-to, after-from, after-to in that order under the cursor '
+          'index, each touching only the root record of that account with the append-unless-repeat law (self-transfers and zero values '
+          'collapse as stated); roots stay roots. Frame machine, every event sequence: EVM.Call files exactly one such bracket - under the '
+          'index of the node pushed for this very call - iff it gets past the depth check, the balance check and the non-existing-account '
+          'shortcut (also when the callee is a precompile, code-less, or its pre join point then fails); create iff it gets past depth, '
+          'balance, nonce and collision checks; CallCode/DelegateCall/StaticCall, every epilogue (also of a frame that reverts) and every '
+          'world effect leave the balance journal untouched (c13_call_records_once, c13_create_records_once, c13_other_kinds_silent, '
+          'c13_halt_silent, c13_effect_silent). Tied by real transfers on a real StateDB through the exported API and by call-tree programs; '
+          'S balshadow (tracer and frame layers) compares the journal with what the harness\' own Transfer wrapper observed.',
+  'note': 'Trusted: Lean kernel + standard axioms; tracer and frame models validated by correspondence. "Equal to the real state balances" '
+          'holds by construction of TransferWithRecord (it reads the StateDB around the host Transfer) and is checked on the implementation '
+          'by S balshadow; SELFDESTRUCT moves funds without a call frame and is outside the property\'s "on entering a CALL or CREATE frame".',
+  'technique': 'Lean 4 proofs: order/index/list law of the bracket + exactly-the-transfers over all event sequences of the frame machine + correspondence with independently observed balances',
  },
  'C15': {
   'text': 'Lean 4 theorems over mcopyStep (one interpreter step on MCOPY with exact uint64 arithmetic): whenever the step succeeds, for EVERY '
@@ -207,13 +240,33 @@ TEXT = {
   'technique': 'Lean 4 proof of permutation-invariance (sorting under a total order) + order-preserving correspondence',
  },
  'C07': {
-  'text': 'Machine-checked Lean 4 proof that the call-tree well-formedness invariant (dense indices, lookup=index, unique smaller '
-          'parent listing each child once in increasing order) holds after EVERY finite history of SaveCall/ExitCall, balanced or '
-          'not, and that balanced histories (what a frame emits) close the cursor; the model is tied to vm/tracer.go by an '
-          'op-sequence correspondence through the exported API on every run.',
-  'note': 'Trusted: Lean kernel; propext/Classical.choice/Quot.sound; the hand-written model of vm/tracer.go CallTree and the '
-          'correspondence harness; that the frame layer only calls SaveCall/ExitCall in bracketed form (frame model, C04 run).',
-  'technique': 'Lean 4 invariant proof by induction over operation histories + model/implementation correspondence',
+  'text': 'Machine-checked Lean 4 proofs. Tracer: the call-tree well-formedness invariant (dense indices, lookup=index, unique smaller '
+          'parent listing each child once in increasing order) holds after EVERY finite history of SaveCall/ExitCall, balanced or not; '
+          'balanced histories close the cursor. Frame machine, every event sequence (any program, refusal, exceptional halt, join-point '
+          'failure, any number of successive top-level invocations): the recorded tree is well formed after every prefix, the cursor is '
+          'the node of the innermost CALL/CREATE frame in progress and is at rest whenever every frame has returned '
+          '(c07_tree_wf_always, c07_cursor_is_innermost_node_frame, c07_closed_when_stack_empty), and the parentless nodes are exactly '
+          'the invocations made while no CALL/CREATE frame was open (c07_roots_are_top_level). Tied to vm/tracer.go by op-sequence '
+          'correspondence through the exported API and to vm/evm.go by call-tree programs; S wf checks the property\'s conditions, '
+          'including the number of parentless nodes, on the real structure after every run.',
+  'note': 'Trusted: Lean kernel; propext/Classical.choice/Quot.sound; the hand-written models of vm/tracer.go CallTree and of the frame '
+          'functions of vm/evm.go, validated by correspondence.',
+  'technique': 'Lean 4 invariant proofs by induction over operation histories and over event sequences of the frame machine + correspondence',
  },
 }
 NOT_YET = {}
+
+# additions made when specification lines were added (kept as appends so that the long literals above stay untouched)
+TEXT['C12']['text'] += (' Program level: S pops-same runs every program whose journal instructions all succeed against the same program with POPs in '
+                        'their place (same end, memory size, return data; gas differs by exactly (800 - 2 x operands) per instruction); S jran runs '
+                        'programs just below the stack limit (a journal instruction never fails on a stack bound and every one of them is reached).')
+TEXT['C12']['note'] = TEXT['C12']['note'].replace('Program-level pair runs (journal op vs POPs) are not built; the per-step statement is what is proved.',
+                                                    'The per-step statement is what is proved; the program-level pair runs are specification lines.')
+TEXT['C09']['text'] += (' S solstring-sequence journals several string variables in one frame, the longest first, and requires every record to still hold '
+                        'what its variable held when it was journaled.')
+TEXT['C15']['text'] += (' S memmove compares with the memmove specification, S tstore-static states the static-context rule on the step trace (also for '
+                        'stores of the value a slot already holds), S gate the fork gate.')
+TEXT['C20']['text'] += (' S workbound charges storage reads, bytes copied into the tracer and memory the instruction makes the frame allocate against the '
+                        'K=16 bound (length fields 2^10..2^20, far pointers 2^14..2^24) and names the cause in its verdict, so that the recorded findings '
+                        'D5/D7 do not cover a different cause; S stdwork measures the bytes each inherited precompile allocates against the gas it must be '
+                        'paid (search support).')
